@@ -105,6 +105,8 @@ Upd(s, e) ==
     [] e.ev = "aret" -> DoRet(s, e)
     [] e.ev = "awaited" -> DoWaited(s)
     [] e.ev = "aend" -> Owes(s)
+    \* doorkeeper with thousands of keys (filters cleared and rebuilt): a key the cache holds is never refused
+    [] e.ev = "adoor" -> Vif([s EXCEPT !.tid = e.id, !.traces = s.traces + 1], e.refused > 0, "C06", "api_set_false_for_key_the_cache_holds")
     [] OTHER -> s
 
 TraceInit == l = 1 /\ st = Init0 /\ done = FALSE
